@@ -300,7 +300,16 @@ func (P *Program) contractFor(key string) *FuncContract {
 	if P.Specs == nil {
 		return nil
 	}
-	return P.Specs.Funcs[key]
+	if fc, ok := P.Specs.Funcs[key]; ok {
+		return fc
+	}
+	// wildcard: pkg.Type.* covers every method of a type / interface
+	if i := strings.LastIndex(key, "."); i > 0 {
+		if fc, ok := P.Specs.Funcs[key[:i]+".*"]; ok {
+			return fc
+		}
+	}
+	return nil
 }
 
 func (P *Program) isEffectFree(pkgPath string) bool {
@@ -313,6 +322,92 @@ func (P *Program) isEffectFree(pkgPath string) bool {
 		}
 	}
 	return false
+}
+
+// allocEscapes reports whether the address of a local variable cell may reach
+// code that can write it through a generic pointer. A non-escaping cell is only
+// loaded, stored and captured by closures that themselves only load / store it.
+func allocEscapes(v ssa.Value, depth int) bool {
+	if depth > 4 {
+		return true
+	}
+	refs := v.Referrers()
+	if refs == nil {
+		return true
+	}
+	for _, r := range *refs {
+		switch x := r.(type) {
+		case *ssa.DebugRef:
+		case *ssa.UnOp:
+			if x.X != v {
+				return true
+			}
+		case *ssa.Store:
+			if x.Addr != v || x.Val == v {
+				return true
+			}
+		case *ssa.MakeClosure:
+			fn := x.Fn.(*ssa.Function)
+			for i, b := range x.Bindings {
+				if b == v {
+					if i >= len(fn.FreeVars) || allocEscapes(fn.FreeVars[i], depth+1) {
+						return true
+					}
+				}
+			}
+		default:
+			return true
+		}
+	}
+	return false
+}
+
+// LocalCellName is the state-variable name of a non-escaping local cell.
+func LocalCellName(a *ssa.Alloc) string {
+	return "L:" + FuncKey(a.Parent()) + "." + a.Name()
+}
+
+// resolveFreeVar follows a closure's free variable to the Alloc it is bound to.
+func resolveFreeVar(fv *ssa.FreeVar) *ssa.Alloc {
+	fn := fv.Parent()
+	par := fn.Parent()
+	if par == nil {
+		return nil
+	}
+	idx := -1
+	for i, f := range fn.FreeVars {
+		if f == fv {
+			idx = i
+		}
+	}
+	if idx < 0 {
+		return nil
+	}
+	for _, b := range par.Blocks {
+		for _, ins := range b.Instrs {
+			mc, ok := ins.(*ssa.MakeClosure)
+			if !ok || mc.Fn != fn || idx >= len(mc.Bindings) {
+				continue
+			}
+			switch bv := mc.Bindings[idx].(type) {
+			case *ssa.Alloc:
+				return bv
+			case *ssa.FreeVar:
+				return resolveFreeVar(bv)
+			}
+			return nil
+		}
+	}
+	return nil
+}
+
+func isScalarAlloc(a *ssa.Alloc) bool {
+	et := a.Type().Underlying().(*types.Pointer).Elem()
+	switch et.Underlying().(type) {
+	case *types.Struct, *types.Array:
+		return false
+	}
+	return true
 }
 
 func isLocalAllocBase(v ssa.Value) bool {
@@ -361,6 +456,16 @@ func storeTargets(addr ssa.Value, out map[string]bool) {
 		out["G:"+a.Pkg.Pkg.Path()+"."+a.Name()] = true
 	case *ssa.Alloc:
 		// local cell: not visible to the caller
+	case *ssa.FreeVar:
+		if al := resolveFreeVar(a); al != nil && isScalarAlloc(al) && !allocEscapes(al, 0) {
+			out[LocalCellName(al)] = true
+			return
+		}
+		if pt, ok := addr.Type().Underlying().(*types.Pointer); ok {
+			out[CellMapName(pt.Elem())] = true
+		} else {
+			out[ModStar] = true
+		}
 	default:
 		// store through an arbitrary pointer value
 		pt, ok := addr.Type().Underlying().(*types.Pointer)
@@ -480,6 +585,11 @@ func (P *Program) directMods(fn *ssa.Function) (map[string]bool, []*ssa.Function
 		// external function without trusted contract: assumed to have no effect on
 		// modelled state (recorded by the executor in the evidence).
 	}
+	if fc := P.contractFor(FuncKey(fn)); fc != nil {
+		for _, g := range fc.Sets {
+			out["H:"+g.Name] = true
+		}
+	}
 	for _, b := range fn.Blocks {
 		for _, ins := range b.Instrs {
 			switch x := ins.(type) {
@@ -518,12 +628,12 @@ func (P *Program) contractMods(fc *FuncContract, c *ssa.CallCommon, out map[stri
 			// interface-typed argument holding a pointer: look through MakeInterface
 			if mi, ok := a.(*ssa.MakeInterface); ok {
 				pointeeMods(mi.X.Type(), out, 0)
+			} else if _, isI := a.Type().Underlying().(*types.Interface); isI {
+				if _, isConst := a.(*ssa.Const); !isConst {
+					out[ModStar] = true // dynamic type of the written object unknown
+				}
 			}
 		}
-		if c.IsInvoke() {
-			pointeeMods(c.Value.Type(), out, 0)
-		}
-		out["ARGSTAR"] = true
 	}
 }
 
